@@ -97,8 +97,17 @@ func reflDec(rt reflect.Type, t *wg.Ty, input []byte) (o decOut) {
 
 // wireSwitches probes the five wire-format defect switches on the real code with the
 // witnesses of the Cxx_refuted theorems and returns the Gallina record.
-func wireSwitches(res *hx.Result) (cfg string, sw map[string]bool) {
+func wireSwitches(res0 *hx.Result, relevant ...string) (cfg string, sw map[string]bool) {
 	sw = map[string]bool{}
+	// only the switches that belong to the calling property are reported as its findings
+	res := hx.NewResult("probe", 0, "")
+	defer func() {
+		for _, k := range relevant {
+			if on, ok := res.Switches[k]; ok {
+				res0.Switch(k, on, res.SwitchDetail[k])
+			}
+		}
+	}()
 	// valueReader: "m" carrying int32 5
 	dyn := &wg.Val{K: wg.VDyn, T: wg.Scalar("i"), V: &wg.Val{K: wg.VNum, W: 4, Bits: 5}}
 	o := sigRead("m", dyn.Enc())
